@@ -1,6 +1,7 @@
 use vstd::prelude::*;
 use crate::engine::tables::*;
 use crate::vspec::gf::*;
+use crate::vspec::gfth::*;
 // What the engines need from the lookup tables, stated against the first-principles field of vspec::gf.
 
 // mod-65535 addition as written in utils::add_mod (0 and 65535 both stand for residue 0)
@@ -11,11 +12,39 @@ pub open spec fn add_mod_spec(x: u16, y: u16) -> u16 {
 pub open spec fn table_mul(x: u16, log_m: u16, exp: Seq<u16>, log: Seq<u16>) -> u16 {
     if x == 0 { 0 } else { exp[add_mod_spec(log[x as int], log_m) as int] }
 }
-// exp/log tables multiply correctly for every (symbol, log_m) pair
-pub uninterp spec fn log_table_spec() -> Seq<u16>;     // the one LOG table (content pinned by initialize_exp_log's contract / N-TABLES)
+// The LOG and EXP tables from first principles (field polynomial 0x1002D, generator x, Cantor basis):
+//   log[x] = discrete logarithm (base x) of the field element that symbol x stands for; log[0] = 65535
+//   exp[l] = the symbol standing for x^l, for l in 0..=65535 (so exp[65535] == exp[0])
+pub open spec fn plog(c: u16) -> u16 { if c == 0 { 65535u16 } else { dlog(c) as u16 } }
+pub open spec fn log_table_spec() -> Seq<u16> { Seq::new(65536, |x: int| plog(cantor(x as u16))) }
+pub open spec fn exp_table_spec() -> Seq<u16> { Seq::new(65536, |l: int| icantor(gpow(l as nat))) }
+// exp/log tables are the defined ones, hence multiply correctly for every (symbol, log_m) pair
 pub open spec fn ok_EXP_LOG(t: &ExpLog) -> bool {
     &&& forall|x: u16, m: u16| #[trigger] table_mul(x, m, t.exp@, t.log@) == gf_mul_log(x, m)
     &&& t.log@ == log_table_spec()
+    &&& t.exp@ == exp_table_spec()
+}
+pub proof fn lemma_add_mod_gpow(l: u16, m: u16)
+    requires l < 65535
+    ensures gpow(add_mod_spec(l, m) as nat) == gpow((l + m) as nat)
+{
+    let sum = (l as u32 + m as u32) as u32;
+    let s = ((sum + (sum >> 16)) as u32 & 0xffff) as u16;
+    assert(sum < 65536 ==> (sum + (sum >> 16)) as u32 & 0xffff == sum) by (bit_vector) requires sum <= 131069u32;
+    assert(sum >= 65536 ==> (sum + (sum >> 16)) as u32 & 0xffff == sum - 65535) by (bit_vector) requires sum <= 131069u32;
+    if sum >= 65536 { lemma_gpow_periodic(s as nat, 1); assert(s as nat + 65535 * 1 == (l + m) as nat); }
+}
+pub proof fn lemma_table_mul(x: u16, m: u16)
+    ensures table_mul(x, m, exp_table_spec(), log_table_spec()) == gf_mul_log(x, m)
+{
+    if x == 0 { lemma_gf_zero(m); } else {
+        let c = cantor(x);
+        lemma_cantor_nz(x); lemma_dlog(c);
+        let l = dlog(c) as u16;
+        assert(log_table_spec()[x as int] == l);
+        lemma_add_mod_gpow(l, m);
+        lemma_gpow_pmul(l as nat, m as nat);
+    }
 }
 // nibble tables of the NoSimd engine
 pub open spec fn mul16_rows_ok(t: &Mul16) -> bool {
@@ -23,7 +52,14 @@ pub open spec fn mul16_rows_ok(t: &Mul16) -> bool {
         #[trigger] t@[m]@[k]@[n] == gf_mul_log(((n as u16) << ((4 * k) as u16)) as u16, m as u16)
 }
 pub open spec fn ok_MUL16(t: &Box<Mul16>) -> bool { mul16_rows_ok(&**t) }
-pub uninterp spec fn mul128_rows_ok(t: &Mul128) -> bool;
+// byte-sliced nibble tables of the SIMD engines: byte n of lo[k] / hi[k] is the low / high byte of (n << 4k) * g^m
+pub open spec fn m128_entry_ok(e: Multiply128lutT, k: int, n: int, m: u16) -> bool {
+    let p = gf_mul_log(((n as u16) << ((4 * k) as u16)) as u16, m);
+    crate::vprelude::byte_of(e.lo@[k], n) == (p & 0xff) as u8 && crate::vprelude::byte_of(e.hi@[k], n) == (p >> 8) as u8
+}
+pub open spec fn mul128_rows_ok(t: &Mul128) -> bool {
+    forall|m: int, k: int, n: int| 0 <= m < 65536 && 0 <= k < 4 && 0 <= n < 16 ==> #[trigger] m128_entry_ok(t@[m], k, n, m as u16)
+}
 // the one skew table all engines share; its *content* is pinned by the table contracts (or N-TABLES)
 pub uninterp spec fn skew_spec() -> Seq<u16>;
 pub open spec fn ok_SKEW(t: &Box<Skew>) -> bool { t@ == skew_spec() }
